@@ -44,6 +44,19 @@ Proof.
   apply Forall_nil.
 Qed.
 
+(* ... and one with leaves that are not ASCII - a field and a word in Latin-1 letters, a phrase holding CJK text and an emoji -
+   under a classifier for which every rune from U+0080 on (except U+FFFD) is a letter: the premise of the text-level theorems is met
+   by such tokens too *)
+Definition quoted_tok (s : string) : token := {| typ := TQuoted; val := s |}.
+Example printed_text_example_non_ascii :
+  let t := QOr (QFv (lit_tok "café") (tk TColon) (lit_tok "naïve")) (QNot (QFv (lit_tok "名前") (tk TColon) (quoted_tok """東京 😀 x"""))) in
+  Forall (LexWsG.lexes_clean LexWsG.cl_wide) (map ltok (pr t)) /\ text_of (pr t) = "café : naïve OR NOT 名前 : ""東京 😀 x"" "%string.
+Proof.
+  cbn zeta. split; [|reflexivity].
+  repeat (apply Forall_cons; [split; [split; discriminate|vm_compute; reflexivity]|]).
+  apply Forall_nil.
+Qed.
+
 (* C07 at the level of query text (any bytes): two adjacent terms written with a blank between them, or with AND between them *)
 Require Import ParserJuxt ParserJuxtParse Build.
 Section J.
